@@ -30,15 +30,19 @@ def takeDigits : List Nat → List Nat × List Nat
 def decVal (ds : List Nat) : Nat := ds.foldl (fun a c => a * 10 + (c - 48)) 0
 
 /-- `{n}` `{n,}` `{n,m}` at the head of the input (after the `{`) -/
-def parseBraces (cs : List Nat) : Option (Quant × List Nat) :=
+def leadZero (n : List Nat) : Bool := match n with | 48 :: _ :: _ => true | _ => false
+
+def parseBraces (go : Bool) (cs : List Nat) : Option (Quant × List Nat) :=
   let (n, r1) := takeDigits cs
   if n.isEmpty then none else
+  if go ∧ leadZero n then none else                    -- Go parseInt: leading zeros make `{…}` literal text
   match r1 with
   | 125 :: r => some (.rep n, r)
   | 44 :: 125 :: r => some (.repFrom n, r)
   | 44 :: r2 =>
     let (mm, r3) := takeDigits r2
     if mm.isEmpty then none else
+    if go ∧ leadZero mm then none else
     match r3 with
     | 125 :: r => some (.repRange n mm, r)
     | _ => none
@@ -67,7 +71,7 @@ def parseQuant (go : Bool) (cs : List Nat) : QRes :=
   | 43 :: r => fin .plus r
   | 63 :: r => fin .opt r
   | 123 :: r =>
-    match parseBraces r with
+    match parseBraces go r with
     | some (q, r') => fin q r'
     | none => if go then .none else .bad       -- Go: a literal `{`;  ES5: `{` is not a PatternCharacter
   | _ => .none
@@ -271,7 +275,7 @@ def parseTerm (go : Bool) : Nat → List Nat → Bool → P
             | _ => none
           else
             match flags (k :: r) with
-            | some (false, t) => if k = 41 ∨ k = 45 ∧ r.head? = some 41 then none else some (none, t, hp)
+            | some (false, t) => if k = 45 ∧ r.head? = some 41 then none else some (none, t, hp)
             | some (true, t) => if k = 45 ∧ r.head? = some 58 then none else body t
             | none => none
         else none
@@ -306,7 +310,7 @@ def parseTerm (go : Bool) : Nat → List Nat → Bool → P
       | c :: r =>
         if c = 42 ∨ c = 43 ∨ c = 63 then none                         -- nothing to repeat
         else if c = 123 then
-          (if go then (match parseBraces r with | some _ => none | none => some (some (.ch (.lit c)), r, true)) else none)
+          (if go then (match parseBraces go r with | some _ => none | none => some (some (.ch (.lit c)), r, true)) else none)
         else if (c = 125 ∨ c = 93) ∧ !go then none
         else some (some (.ch (.lit c)), r, true)
     match atom with
@@ -320,6 +324,38 @@ def parseTerm (go : Bool) : Nat → List Nat → Bool → P
         else if startsQuant go r' then none                            -- `a**`, `a+{2}` …
         else some (a.map fun a => .quant a q lz, r')
 end
+
+def Quant.isRepeat : Quant → Bool
+  | .rep _ | .repFrom _ | .repRange _ _ => true
+  | _ => false
+
+def qMin : Quant → Nat
+  | .rep n | .repFrom n | .repRange n _ => decVal n
+  | .plus => 1 | _ => 0
+def qMax : Quant → Option Nat
+  | .rep n => some (decVal n) | .repRange _ m => some (decVal m) | .opt => some 1 | _ => none
+
+/-- regexp/syntax parse.go:451 repeatIsValid -/
+def repeatIsValid : Re → Nat → Bool
+  | .quant b q _, n =>
+    if q.isRepeat then
+      if qMax q = some 0 then true else
+      let mv := (qMax q).getD (qMin q)
+      if mv > n then false else repeatIsValid b (if mv > 0 then n / mv else n)
+    else repeatIsValid b n
+  | .group r, n | .ncgroup r, n | .look _ r, n => repeatIsValid r n
+  | .seq a b, n | .alt a b, n => repeatIsValid a n && repeatIsValid b n
+  | _, _ => true
+
+/-- parse.go:435: every `{n,m}` with n ≥ 2 or m ≥ 2 is checked when it is built: nested counts may
+    multiply to at most 1000 -/
+def goRepeatOk : Re → Bool
+  | .quant b q l =>
+    goRepeatOk b &&
+    (if q.isRepeat ∧ (qMin q ≥ 2 ∨ (qMax q).getD 0 ≥ 2) then repeatIsValid (.quant b q l) 1000 else true)
+  | .group r | .ncgroup r | .look _ r => goRepeatOk r
+  | .seq a b | .alt a b => goRepeatOk a && goRepeatOk b
+  | _ => true
 
 /-- whole pattern -/
 def parsePattern (go : Bool) (p : List Nat) : PRes :=
